@@ -91,22 +91,34 @@ fn scheduled(id: String, seed: u64, max_nodes: usize, schedule: &[Step]) -> Valu
 }
 
 fn threads(id: String, seed: u64, max_nodes: usize) -> Value {
-    let (s1, r1) = unbounded();
+    // the producer -> relay channel is unbounded, or bounded with capacity 1 / 2 (the producer then has to wait for the relay);
+    // nothing may ever be lost, whatever the channel flavour
+    let (s1, r1) = match seed % 3 { 0 => unbounded(), 1 => crossbeam_channel::bounded(1), _ => crossbeam_channel::bounded(2) };
     let (s2, r2) = unbounded();
     let (so, ro) = unbounded::<Value>();
+    let prod_done = std::sync::Arc::new(std::sync::atomic::AtomicBool::new(false));
+    let pd = prod_done.clone();
     let prod_h = std::thread::spawn(move || {
         let p = producer(seed, s1, max_nodes);
+        pd.store(true, std::sync::atomic::Ordering::SeqCst);
         p.nodes.clone()
     });
     let so1 = so.clone();
+    let pd1 = prod_done.clone();
     let relay_h = std::thread::spawn(move || {
         let mut rng = StdRng::seed_from_u64(seed ^ 1);
         let mut relay = Bdd::with_sender_receiver(s2, r1);
-        for k in 0..40 {
-            let h = rng.gen_range(0..max_nodes + 4);
+        let mut k = 0;
+        loop {
+            let done_before = pd1.load(std::sync::atomic::Ordering::SeqCst);
+            // always leave room beyond the current table, otherwise a bounded producer could wait forever
+            let h = rng.gen_range(0..relay.nodes.len() + 4);
             let found = relay.recv(Term(h));
             so1.send(json!({"a": "relay", "seq": k, "h": h, "found": found, "nodes": nodes_json(&relay)})).unwrap();
-            if k % 5 == 4 { std::thread::yield_now(); }
+            k += 1;
+            if k % 3 == 0 { std::thread::sleep(std::time::Duration::from_micros(300)); }
+            // stop once the producer had finished before a poll that found the channel empty (or after plenty of polls)
+            if (done_before && !found && h >= relay.nodes.len()) || (done_before && k > 400) { break; }
         }
         relay
     });
@@ -115,7 +127,7 @@ fn threads(id: String, seed: u64, max_nodes: usize) -> Value {
         let mut rng = StdRng::seed_from_u64(seed ^ 2);
         let mut recv = Bdd::with_receiver(r2);
         for k in 0..40 {
-            let h = rng.gen_range(0..max_nodes + 4);
+            let h = rng.gen_range(0..recv.nodes.len() + 4);
             let found = recv.recv(Term(h));
             so2.send(json!({"a": "recv", "seq": k, "h": h, "found": found, "nodes": nodes_json(&recv)})).unwrap();
             if k % 7 == 6 { std::thread::yield_now(); }
@@ -130,11 +142,11 @@ fn threads(id: String, seed: u64, max_nodes: usize) -> Value {
     // quiescence: producer is done; drain the chain
     let last = prod_nodes.len() + 5;
     let f1 = relay.recv(Term(last));
-    steps.push(json!({"a": "relay", "seq": 1000, "h": last, "found": f1, "nodes": nodes_json(&relay)}));
+    steps.push(json!({"a": "relay", "seq": 100000, "h": last, "found": f1, "nodes": nodes_json(&relay)}));
     let f2 = recv.recv(Term(last));
-    steps.push(json!({"a": "recv", "seq": 1001, "h": last, "found": f2, "nodes": nodes_json(&recv)}));
+    steps.push(json!({"a": "recv", "seq": 100001, "h": last, "found": f2, "nodes": nodes_json(&recv)}));
     json!({"kind": "frontend", "id": id, "mode": "threads", "prod": nodes_of(&prod_nodes), "stream": nodes_of(&prod_nodes[2..]), "steps": steps,
-           "final_relay": nodes_json(&relay), "final_recv": nodes_json(&recv)})
+           "final_relay": nodes_json(&relay), "final_recv": nodes_json(&recv), "channel": (["unbounded", "bounded1", "bounded2"][(seed % 3) as usize])})
 }
 
 pub fn main(args: &[String]) {
